@@ -216,8 +216,9 @@ def run_boundary(ctx, maxlen, alphabet=b'\r\n a\t'):
     return len(cases)
 
 
-def check_no_raise(ctx, data, kind):
-    """weaker claim for arbitrary bytes: parse / flatten / copy / pickle never raise.  Returns (env, flat) or None."""
+def check_no_raise(ctx, data, kind, case=None, light=False):
+    """weaker claim for arbitrary bytes: parse / flatten / copy / pickle never raise.  Returns (env, flat) or None.
+    case: what to record instead of the data itself (big inputs); light: one pickle protocol, one copy."""
     step = 'parse'
     try:
         e = Envelope('sender@example.com', ['r1@example.com', 'r2@example.net'])
@@ -227,24 +228,26 @@ def check_no_raise(ctx, data, kind):
         step = 'copy'
         c = e.copy()
         cf = c.flatten()
-        e.copy(['x@example.com']).flatten()
+        if not light:
+            e.copy(['x@example.com']).flatten()
         step = 'pickle'
-        for proto in (pickle.HIGHEST_PROTOCOL, pickle.DEFAULT_PROTOCOL):
+        for proto in ((pickle.HIGHEST_PROTOCOL,) if light else (pickle.HIGHEST_PROTOCOL, pickle.DEFAULT_PROTOCOL)):
             p = pickle.loads(pickle.dumps(e, proto))
             pf = p.flatten()
             if pf != flat or p.sender != e.sender or p.recipients != e.recipients:
-                ctx.fail('c20:pickle-changes-envelope', dict(kind=kind, data=data, protocol=proto),
-                         'pickled envelope flattens to %r, original %r' % (pf, flat))
+                ctx.fail('c20:pickle-changes-envelope', dict(case or dict(kind=kind, data=data), protocol=proto),
+                         'pickled envelope flattens to %r, original %r' % (pf[0][-200:] + pf[1][:200], flat[0][-200:] + flat[1][:200]))
         if cf != flat:
-            ctx.fail('c20:copy-changes-envelope', dict(kind=kind, data=data), 'copy flattens to %r, original %r' % (cf, flat))
+            ctx.fail('c20:copy-changes-envelope', case or dict(kind=kind, data=data),
+                     'copy flattens to %r, original %r' % (cf[0][-200:] + cf[1][:200], flat[0][-200:] + flat[1][:200]))
         return e, flat
     except Exception as ex:
         key = 'c20:raises-on-arbitrary-bytes'
         # classification only: raised while email re-folds a header line that is (or, written as "Name: value", becomes) longer than 78 bytes
         if step == 'flatten' and any(f.name in ('_fold', 'fold_binary') for f in traceback.extract_tb(ex.__traceback__)):
             key = 'c20:flatten-raises-refolding-long-header-line'
-        ctx.fail(key, dict(kind=kind, data=data, step=step),
-                 '%s() raised %s: %s' % (step, exc_name(ex), ex))
+        ctx.fail(key, dict(case or dict(kind=kind, data=data), step=step),
+                 '%s() raised %s: %s' % (step, exc_name(ex), str(ex)[:300]))
         return None
 
 
@@ -506,23 +509,33 @@ def run_fallback(ctx, n):
             mode = rng.choice(['crlf', 'crlf', 'lf', 'mixed'])
             H, blank = render(fs, rng, mode)
             cases.append((fs, pos, H, blank, gen_body(rng), mode))
-    datas = [H + blank + body for (fs, pos, H, blank, body, mode) in cases]
-    folds = [email_folds(H + blank) for (fs, pos, H, blank, body, mode) in cases]
+    judge_long(ctx, cases, 'long-line')
+
+
+def judge_long(ctx, cases, kind, light=False):
+    """cases: (fields, index of the long field, header block, blank, body, eol mode)"""
+    cases = [c if len(c) == 7 else c + (None,) for c in cases]
+    datas = [H + blank + body for (fs, pos, H, blank, body, mode, gen) in cases]
+    folds = [email_folds(H + blank) for (fs, pos, H, blank, body, mode, gen) in cases]
     outs = ctx.model.batch('c20_parse_flatten_x', [[d, f] for d, f in zip(datas, folds)])
-    for (fs, pos, H, blank, body, mode), data, fl, o in zip(cases, datas, folds, outs):
+    for (fs, pos, H, blank, body, mode, gen), data, fl, o in zip(cases, datas, folds, outs):
         raw = [split for split in split_fields(hnorm_py(fs))]
         path = 'fallback' if any(not x for x in fl) else ('refolded' if [x[0] for x in fl] != raw else 'as-received')
         where = 'first' if pos == 0 else ('last' if pos == len(fs) - 1 else 'middle')
-        ctx.count('long-line:%s:%s' % (path, where))
-        case = dict(kind='long-line', data=data, header_block=H, blank=blank, body=body, long_field_index=pos, path=path)
+        ctx.count('%s:%s:%s' % (kind, path, where))
+        case = dict(kind='long-line', stream=kind, data=data, header_block=H, blank=blank, body=body, long_field_index=pos, path=path)
+        if gen is not None:       # keep replays small: big inputs are regenerated from their description
+            case = dict(kind='long-line', stream=kind, long_field_index=pos, path=path, body=body, gen=gen)
         ctx.evaluated(('x', data), nontrivial=True)
         if path == 'fallback':
-            ctx.sample(dict(kind='long-line', data=data, long_field_index=pos, path=path), cap=5)
-        r = check_no_raise(ctx, data, 'long-line')
+            ctx.sample(dict(kind=kind, data=data[:300], long_field_index=pos, path=path), cap=5)
+        mo = (B(o[1]), B(o[2])) if o[0] == 0 else ('model-tag', o[0])
+        r = check_no_raise(ctx, data, kind, case=case, light=light)
         if r is None:
+            # the model (fallback taken for ANY exception of the first attempt) produced output, the implementation raised
+            ctx.mismatch('parse-flatten-long-line', case, 'raises', (mo[0][-200:], mo[1][:200]) if len(mo) == 2 and mo[0] != 'model-tag' else mo)
             continue
         e, flat = r
-        mo = (B(o[1]), B(o[2])) if o[0] == 0 else ('model-tag', o[0])
         if flat != mo or len(fl) != len(fs):
             ctx.mismatch('parse-flatten-long-line', case, flat, mo)
         # ---- implementation-only oracle: same header field list (names and values, in order, same multiplicity), same body
@@ -568,6 +581,152 @@ def run_fallback(ctx, n):
             if flat2 != flat:
                 ctx.fail('c20:not-a-fixed-point', case, 're-parsing flatten() output gives %r, first %r' % (flat2, flat))
 
+
+# ------------------------------------------------------------------ deep nesting in structured headers (never raises; fallback for ANY exception)
+NEST_NAMES = [b'From', b'To', b'Cc', b'Reply-To', b'Message-ID', b'References']
+NEST_UNITS = [b'(', b'<', b'"', b'[']
+NEST_DEPTHS = [50, 400, 1000, 3000, 12000]
+NEST_ORDINARY = [(b'Received', b'from a.example by b.example', [b'\twith ESMTP; Mon, 1 Jan 2024 00:00:00 +0000']),
+                 (b'Subject', 'gr\u00fc\u00dfe'.encode(), []), (b'X-Dup', b'1', []), (b'X-Dup', b'2', [])]
+
+
+def make_nest(gen):
+    """gen: name, unit, depth, after (ordinary fields in front or not), eol -> (fields, pos, H, blank)"""
+    name, unit, depth = gen['name'], gen['unit'], gen['depth']
+    if isinstance(name, str):
+        name, unit = name.encode('latin1'), unit.encode('latin1')
+    field = (name, unit * depth + b' x@y.z', [])
+    fs = (list(NEST_ORDINARY) if gen['after'] else []) + [field]
+    eol = CRLF if gen['eol'] == 'crlf' else b'\n'
+    H = b''.join(n + b': ' + v + eol + b''.join(c + eol for c in cs) for n, v, cs in fs)
+    return fs, len(fs) - 1, H, eol
+
+
+def nest_heavy(name, unit, depth):
+    """combinations on which email's own parsers take > 0.1 s per fold"""
+    addr = name not in (b'Message-ID', b'References')
+    return addr and ((unit == b'(' and depth == 400) or (unit == b'"' and depth >= 3000) or depth >= 12000 and unit in (b'<', b'"'))
+
+
+def run_nesting(ctx):
+    cases = []
+    for name in NEST_NAMES:
+        for unit in NEST_UNITS:
+            for depth in NEST_DEPTHS:
+                for after in (False, True):
+                    if ctx.quick:          # quick tier: the slow combinations once, the "alone" variant for two names
+                        if nest_heavy(name, unit, depth) and not (name == b'To' and after and (unit, depth) == (b'(', 400)):
+                            continue
+                        if not after and name not in (b'To', b'Message-ID'):
+                            continue
+                    gen = dict(name=name.decode(), unit=unit.decode(), depth=depth, after=after, eol='crlf' if (depth + after) % 2 else 'lf')
+                    fs, pos, H, blank = make_nest(gen)
+                    cases.append((fs, pos, H, blank, b'body\r\n.\r\n', gen['eol'], dict(nest=gen)))
+    judge_long(ctx, cases, 'nesting', light=True)
+    return len(cases)
+
+
+# ------------------------------------------------------------------ SIZE of the header block (the quantifier bounds the line length, not the block)
+def big_fields(n):
+    """n well-formed fields: three-line ~78-byte Received fields, duplicate names, 8-bit Subjects"""
+    fs = []
+    for i in range(n):
+        if i % 50 == 7 or n == 1:
+            fs.append((b'Subject', ('gr\u00f6\u00dfe \u65e5\u672c %d' % i).encode(), []))
+        elif i % 10 == 3:
+            fs.append((b'X-Dup', b'value %d' % i, [b' folded %d' % i]))
+        else:
+            fs.append((b'Received', (b'from host%05d.example.org (host%05d.example.org [192.0.2.%d])' % (i, i, i % 250)).ljust(68, b'x'),
+                       [(b'\tby mx.example.net (slimta 5.0.5) with ESMTP id %012d' % i).ljust(78, b'y'),
+                        b'\tfor <rcpt%05d@example.com>; Mon, 01 Jan 2024 00:00:%02d +0000' % (i, i % 60)]))
+    return fs
+
+
+def make_big(gen):
+    """gen: nfields or size (exact byte size of header block + blank line), eol -> (fields, H, blank)"""
+    e = CRLF if gen['eol'] == 'crlf' else b'\n'
+
+    def rend(fs):
+        return b''.join(n + b': ' + v + e + b''.join(c + e for c in cs) for n, v, cs in fs)
+    if gen.get('size') is None:
+        fs = big_fields(gen['nfields'])
+        return fs, rend(fs), e
+    size = gen['size']
+    fs = []
+    for f in big_fields(10000):
+        if len(rend(fs + [f])) + len(e) + 400 > size:
+            break
+        fs.append(f)
+    r = size - len(rend(fs)) - len(e)                 # bytes still to fill with X-Pad lines of 8+len(e) .. 77+len(e) bytes
+    lo, hi = 8 + len(e), 77 + len(e)
+    while r > 0:
+        L = min(r, hi)
+        if 0 < r - L < lo:
+            L = r - lo
+        fs.append((b'X-Pad', b'p' * (L - 7 - len(e)), []))
+        r -= L
+    H = rend(fs)
+    assert len(H) + len(e) == size, (len(H), size)
+    return fs, H, e
+
+
+SIZE_BODIES = [b'\n\nleading blank lines\nbare LF\n', b'\r\n\r\n.\r\n..dot lines\r\n', b'lone\rCR and \x00 NUL\r\n', b'\n', b'plain text\r\n',
+               b'\r\nX: looks like a header\n\n\xff\xfe 8-bit\r']
+
+
+def run_sizes(ctx):
+    gens = []
+    k = 0
+    for n in (1, 20, 150, 400, 450, 900):
+        for eol in ('crlf', 'lf'):
+            if ctx.quick and n == 900 and eol == 'crlf':
+                continue
+            for _ in range(1 if ctx.quick else 6):
+                gens.append((dict(nfields=n, eol=eol, size=None), SIZE_BODIES[k % len(SIZE_BODIES)])); k += 1
+    for T in (16384, 32768, 65536):
+        for d in (-80, -1, 0, 1, 2, 80):
+            for eol in ('crlf', 'lf'):
+                for _ in range(1 if ctx.quick else 3):
+                    gens.append((dict(nfields=None, eol=eol, size=T + d), SIZE_BODIES[k % len(SIZE_BODIES)])); k += 1
+    built = [make_big(g) for g, _ in gens]
+    datas = [H + e + body for (fs, H, e), (g, body) in zip(built, gens)]
+    m_pf = ctx.model.batch('c20_parse_flatten', datas)
+    m_fix = ctx.model.batch('c20_refix', datas) if not ctx.quick else [None] * len(datas)
+    for (fs, H, e), (g, body), data, opf, ofix in zip(built, gens, datas, m_pf, m_fix):
+        case = dict(kind='size', gen=g, body=body, header_fields=len(fs), header_bytes=len(H) + len(e))
+        ctx.count('size:%s' % ('<=16K' if len(H) <= 16384 else '<=32K' if len(H) + len(e) <= 32768 else '<=64K' if len(H) + len(e) <= 65536 else '>64K'))
+        ctx.evaluated(('size', repr(g), body), nontrivial=True)
+        want = (hnorm_py(fs) + CRLF, body)
+        mo = (B(opf[1]), B(opf[2])) if opf[0] == 0 else ('out-of-class',)
+        if mo != want:
+            ctx.mismatch('model-vs-reference-rendering', case, 'reference', 'differs' if len(mo) == 2 else mo)
+        r = check_no_raise(ctx, data, 'size', case=case, light=True)
+        if r is None:
+            continue
+        env, flat = r
+        if flat != mo:
+            ctx.mismatch('parse-flatten', case, (flat[0][-120:], flat[1][:120]), (mo[0][-120:], mo[1][:120]) if len(mo) == 2 else mo)
+        if flat[1] != body:
+            ctx.fail('c20:body-changed', case, 'flatten() body = %r, expected %r (header block of %d fields, %d bytes)' % (flat[1][:200], body, len(fs), len(H) + len(e)))
+        elif flat[0] != want[0]:
+            ctx.fail('c20:headers-changed', case, 'flatten() header data differs from the %d fields of the message (CRLF): %d bytes, expected %d' % (len(fs), len(flat[0]), len(want[0])))
+        try:
+            e2 = Envelope()
+            e2.parse(flat[0] + flat[1])
+            flat2 = e2.flatten()
+        except Exception as ex:
+            flat2 = ('raises', exc_name(ex))
+        if ofix is not None:
+            mo2 = (B(ofix[1]), B(ofix[2])) if ofix[0] == 0 else ('out-of-class',)
+            if flat2 != mo2:
+                ctx.mismatch('refix', case, 'implementation', 'differs from the model')
+        if flat2 != flat:
+            ctx.fail('c20:not-a-fixed-point', case, 're-parsing flatten() output gives another body / header block: body %r, first %r' % (flat2[1][:200], flat[1][:200]))
+        if len(fs) <= 150:
+            probs = mutation_probe(env, flat)
+            if probs:
+                ctx.fail('c20:copy-shares-state', case, '; '.join(probs))
+    return len(gens)
 
 
 def encoded_body(body, which):
@@ -678,6 +837,10 @@ def run(ctx):
         '8-bit, header-looking and white-space-only lines: flatten(), re-parse, copy, deep copy mutation probe, pickle (2 protocols) compared '
         'with the model (class codec) and with an independent rendering; the same inputs and arbitrary / mutated / small-alphabet-exhaustive byte '
         'strings through parse/flatten/copy/pickle for the never-raises claim and through the model with email\'s answers as codec oracle; '
+        'size: well-formed blocks of 1 / 20 / 150 / 400 / 450 / 900 fields (78-byte folded Received lines, duplicate names, 8-bit Subjects) and blocks of exactly '
+        'T-80, T-1, T, T+1, T+2, T+80 bytes for T = 16384, 32768, 65536, CRLF and LF, x bodies with leading blank lines / bare LF / lone CR / NUL / dot lines '
+        '(parse, flatten, copy, pickle, re-parse; model run on the same bytes); nesting: From/To/Cc/Reply-To/Message-ID/References lines of 50..12000 nested '
+        '( < " [ alone and behind ordinary fields (email raises RecursionError / IndexError for some: fallback for ANY exception of the first attempt); '
         'long-line: one field with a line > 78 bytes (address / msg-id / comment garbage that email cannot re-fold, and long foldable text) placed at every '
         'position among 1-4 ordinary fields (folded, 8-bit, duplicate names): flatten() must write every field exactly once in order - the ordinary ones '
         'byte-identical (CRLF), the long one as received when email raises (no-refold fallback), same body - plus copy, pickle, re-parse fixed point; '
@@ -691,6 +854,8 @@ def run(ctx):
     run_arbitrary(ctx, [gen_arbitrary(ctx.rng, good) for _ in range(1500 if q else 20000)], 'random')
     run_arbitrary(ctx, [gen_overlong(ctx.rng) for _ in range(600 if q else 8000)], 'overlong')
     run_fallback(ctx, 900 if q else 12000)
+    run_nesting(ctx)
+    run_sizes(ctx)
     run_7bit(ctx, 500 if q else 6000)
     ctx.extra['exhaustive'] = True
     ctx.extra['exhaustive_bound'] = ('boundary search: all %d byte strings over {CR,LF,SP,a,TAB} up to length %d; parse/flatten/copy/pickle never-raise '
@@ -709,8 +874,16 @@ def replay(ctx, case):
 
     def unhex(x):
         return bytes.fromhex(x['hex']) if isinstance(x, dict) else x
-    data = unhex(c['data'])
-    print('data          :', data)
+    if 'gen' in c and 'nest' in c['gen']:
+        fs, pos, H, blank = make_nest(c['gen']['nest'])
+        data = H + blank + unhex(c['body'])
+    elif 'gen' in c:
+        fs, H, blank = make_big(c['gen'])
+        data = H + blank + unhex(c['body'])
+        print('header block: %d fields, %d bytes (with the blank line), line ends %s; body %r' % (len(fs), len(H) + len(blank), c['gen']['eol'], unhex(c['body'])))
+    else:
+        data = unhex(c['data'])
+    print('data          :', data if len(data) < 3000 else data[:300] + b' ... ' + data[-300:])
     if c.get('kind') == '7bit':
         which = c.get('encoder')
         e = Envelope('sender@example.com', ['r1@example.com'])
@@ -721,12 +894,19 @@ def replay(ctx, case):
         except Exception as ex:
             print('implementation: encode_7bit(%s) raises %r' % (which, ex))
         return 0
+    def ab(flat):
+        return flat if len(flat[0]) + len(flat[1]) < 3000 else (flat[0][:150] + b' ... ' + flat[0][-150:], flat[1][:300])
     try:
-        e, flat = impl_parse_flatten(data)
-        print('implementation: flatten() =', flat)
+        e = Envelope('sender@example.com', ['r1@example.com', 'r2@example.net'])
+        e.parse(data)
+        print('implementation: parse() ok; message (body) attribute starts %r' % (e.message[:200],))
+        flat = e.flatten()
+        print('implementation: flatten() =', ab(flat))
+        if 'body' in c:
+            print('expected body  :', unhex(c['body'])[:300], '-> body', 'UNCHANGED' if flat[1] == unhex(c['body']) else 'CHANGED')
         e2 = Envelope(); e2.parse(flat[0] + flat[1])
-        print('implementation: re-parsed  =', e2.flatten())
-        if c.get('kind') == 'long-line':
+        print('implementation: re-parsed  =', ab(e2.flatten()))
+        if c.get('kind') == 'long-line' and len(data) < 3000:
             m = re.search(br'\r?\n\s*?\n', data)
             hd = data[:m.end(0)] if m else data
             fl = email_folds(hd)
@@ -736,7 +916,7 @@ def replay(ctx, case):
                 print('model (_msg_generator, fresh buffers):', ctx.model.call('c20_parse_flatten_x', [data, fl]))
         print('implementation: copy probe =', mutation_probe(e, flat))
     except Exception as ex:
-        print('implementation: raises %r' % ex)
-    if ctx.model:
+        print('implementation: raises %s: %s' % (exc_name(ex), str(ex)[:200]))
+    if ctx.model and len(data) < 3000:
         print('model (class codec):', ctx.model.call('c20_parse_flatten', data))
     return 0
